@@ -57,9 +57,10 @@ def run_property(pid, args, contracts, seed):
 
     # ---- stage A: symbolic exploration (one task per contract)
     exp = []
-    if sel:
-        with ctx.Pool(min(jobs, len(sel))) as pool:
-            exp = pool.map(_cli._explore_worker, [c.name for c in sel], chunksize=1)
+    sym_sel = [c for c in sel if "native-only" not in c.tags]
+    if sym_sel:
+        with ctx.Pool(min(jobs, len(sym_sel))) as pool:
+            exp = pool.map(_cli._explore_worker, [c.name for c in sym_sel], chunksize=1)
     recs = []
     unavailable = []
     if args.verbose:
